@@ -3,7 +3,7 @@
 
   Property theorems only.  Subject: `Cel.evalT` (Cel.Model.Typing) — evaluation of the well-typed operator
   fragment (arithmetic, concatenation, time arithmetic, unary minus, relations, `in`, `! && || ?:`, conversions,
-  `type()`, `size()`, string predicates, `has()`, boolean macros, list literals) in both runners, where the
+  `type()`, `size()`, string predicates, timestamp/duration accessors, `has()`, boolean macros, `map`/`filter`, list literals) in both runners, where the
   class of every result is decided by `resTable` (which arithmetic dunder a wrapper class defines and what it
   constructs — proved equal to the table regenerated from the class bodies of celtypes.py in
   `Cel.Bridge.ResultCls`), `cmpSpecs` (C08) and `wrapSpec` (which results evaluation.py builds with
@@ -136,6 +136,17 @@ theorem preservation (P : Prims) (r : Runner) : (e : TExpr) → (τ : Cls) → t
       obtain ⟨x, _, hv⟩ := bind_ok _ _ _ hv
       obtain ⟨y, _, hv⟩ := bind_ok _ _ _ hv
       split at hv
+      · exact map_ok_cls _ _ _ _ (fun _ => rfl) hv
+      · simp at hv
+  | .getter k e tz, τ, ht, _, v, hv => by
+      simp only [typeOfE, Option.bind_eq_bind, Option.bind_eq_some_iff] at ht
+      obtain ⟨σ, _, hb⟩ := ht
+      split at hb <;> simp at hb
+      subst hb
+      simp only [evalT] at hv
+      obtain ⟨x, _, hv⟩ := bind_ok _ _ _ hv
+      split at hv
+      · exact map_ok_cls _ _ _ _ (fun _ => rfl) hv
       · exact map_ok_cls _ _ _ _ (fun _ => rfl) hv
       · simp at hv
   | .has m f, τ, ht, hh, v, hv => by
